@@ -21,11 +21,11 @@ func init() {
 		Outside:     []string{"argument lengths other than the digit-boundary set", "writeN for n ≥ 10^15 (float64 Log10 rounding, measured outside)", "write errors (C04)"},
 		Bounds: map[string]any{
 			"quick":    "arity 0..2, per-argument length ∈ {0,1,9,10,11,99,100,101}, writer buffers 16/64/4096 B; arity header ∈ {9,10,11,99,100,101}; writeN around 10^1..10^8",
-			"thorough": "arity 0..3, per-argument length up to 100001 (17 boundary values), arity header up to 1001, writeN around 10^1..10^14",
+			"thorough": "arity 0..3 over the same 8 lengths, arity header up to 1001, writeN around 10^1..10^14",
 		},
 		specs: func(tier string) []specRef {
 			return []specRef{
-				hs(rootPkg, "VerifC14_writeCmd", P{"max_args": q(tier, int64(2), 3), "n_lens": q(tier, int64(8), 17)}, "decoded"),
+				hs(rootPkg, "VerifC14_writeCmd", P{"max_args": q(tier, int64(2), 3), "n_lens": q(tier, int64(8), 8)}, "decoded"),
 				hs(rootPkg, "VerifC14_arity", P{"n_counts": q(tier, int64(6), 9)}, "arity"),
 				hs(rootPkg, "VerifC14_writeN", P{"n_pows": q(tier, int64(8), 14)}, "writeN"),
 			}
